@@ -263,13 +263,14 @@ func (t *FnTrans) goStmt(x *ssa.Go) {
 	if f, ok := x.Call.Value.(*ssa.Function); ok {
 		key = "go:" + fnKey(f)
 	}
-	if ct := t.eng.specs.Funcs[strings.TrimPrefix(key, "go:")]; ct != nil && ct.Opts["thread"] != "" {
-		return // verified separately as a thread entry that touches only monitor-protected state
+	// go f(..) / go func(){...}() with a function or closure under an `opt thread` contract: it is verified
+	// separately as a thread entry (no locks held, monitor-protected state only); what it requires of the captured
+	// values and arguments is an obligation here, at the spawn
+	fv := t.val(x.Call.Value)
+	if f, ok := x.Call.Value.(*ssa.Function); ok && fv.Fn == nil {
+		fv.Fn = f
 	}
-	// go func(){...}() with a closure under an `opt thread` contract: the closure is verified separately as a
-	// thread entry (no locks held, monitor-protected state only); what it requires of the captured values and
-	// arguments is an obligation here, at the spawn
-	if fv := t.val(x.Call.Value); fv.Fn != nil {
+	if fv.Fn != nil {
 		if ct := t.eng.specs.Funcs[fnKey(fv.Fn)]; ct != nil && ct.Opts["thread"] != "" {
 			env := &Env{t: t, vars: map[string]SVal{}, st: t.cur, pkg: t.fn.Pkg.Pkg, selfAlloc0: t.get("$alloc")}
 			for i, v := range fv.Fn.FreeVars {
@@ -549,7 +550,7 @@ func (t *FnTrans) computeLoopWrites() {
 				}
 				i := strings.Index(g.Text, "=")
 				if i <= 0 {
-					l.all = true
+					t.setAll(l, 553)
 					continue
 				}
 				lhs := strings.TrimSpace(g.Text[:i])
@@ -557,7 +558,7 @@ func (t *FnTrans) computeLoopWrites() {
 				if gs, ok := t.eng.specs.Ghosts[pk+"."+lhs]; ok {
 					t.w(l, "GG."+pk+"."+lhs, gs)
 				} else {
-					l.all = true // ghost field of some object: havoc conservatively
+					t.setAll(l, 561) // ghost field of some object: havoc conservatively
 				}
 			}
 		}
@@ -627,7 +628,7 @@ func (t *FnTrans) staticAddrComps(addr ssa.Value, l *loopInfo) {
 	case *ssa.FieldAddr:
 		comp, T, ok := t.staticFieldComp(a)
 		if !ok {
-			l.all = true
+			t.setAll(l, 631)
 			return
 		}
 		t.wFieldComp(l, comp, T)
@@ -644,7 +645,7 @@ func (t *FnTrans) staticAddrComps(addr ssa.Value, l *loopInfo) {
 	default:
 		pt, ok := t.resolve(addr.Type()).Underlying().(*types.Pointer)
 		if !ok {
-			l.all = true
+			t.setAll(l, 648)
 			return
 		}
 		t.wCell(l, pt.Elem())
@@ -682,6 +683,16 @@ func (t *FnTrans) noteVia(l *loopInfo, comp string, v ssa.Value) {
 		if u, isU := v.(*ssa.UnOp); isU {
 			if fa, isFA := u.X.(*ssa.FieldAddr); isFA {
 				if xin, isIn := fa.X.(ssa.Instruction); !isIn || xin.Block() == nil || !l.body[xin.Block()] {
+					okReload = true
+				}
+			}
+			// ... or of a variable cell that lives outside the loop (captured variable, local declared before the
+			// loop); the cell's component must not be written by the loop (checked at the loop head)
+			if u.Op == token.MUL {
+				if _, isFV := u.X.(*ssa.FreeVar); isFV {
+					okReload = true
+				}
+				if al, isAl := u.X.(*ssa.Alloc); isAl && al.Block() != nil && !l.body[al.Block()] {
 					okReload = true
 				}
 			}
@@ -803,7 +814,7 @@ func (t *FnTrans) instrWritesRaw(in ssa.Instruction, l *loopInfo) {
 	case *ssa.Call:
 		t.callWrites(&x.Call, l)
 	case *ssa.Defer, *ssa.Go:
-		l.all = true
+		t.setAll(l, 807)
 	}
 }
 
@@ -913,7 +924,7 @@ func (t *FnTrans) callWrites(c *ssa.CallCommon, l *loopInfo) {
 	}
 	if ct == nil && isIntrinsicKey(key) {
 		if !t.intrinsicWrites(key, c, l) {
-			l.all = true
+			t.setAll(l, 917)
 		}
 		return
 	}
@@ -921,13 +932,13 @@ func (t *FnTrans) callWrites(c *ssa.CallCommon, l *loopInfo) {
 		ct = t.eng.specs.Funcs[key]
 	}
 	if ct == nil {
-		l.all = true
+		t.setAll(l, 925)
 		return
 	}
 	t.wAlloc(l)
 	for _, g := range ct.Ghost {
 		// ghost updates performed on behalf of callback contracts
-		if strings.HasPrefix(g.Text, "assert ") {
+		if strings.HasPrefix(g.Text, "assert ") || strings.HasPrefix(g.Text, "assume ") {
 			continue
 		}
 		if i := strings.Index(g.Text, "="); i > 0 {
@@ -936,7 +947,7 @@ func (t *FnTrans) callWrites(c *ssa.CallCommon, l *loopInfo) {
 			if gs, ok := t.eng.specs.Ghosts[pk+"."+name]; ok {
 				t.w(l, "GG."+pk+"."+name, gs)
 			} else {
-				l.all = true
+				t.setAll(l, 940)
 			}
 		}
 	}
@@ -998,7 +1009,7 @@ func (t *FnTrans) callWrites(c *ssa.CallCommon, l *loopInfo) {
 	}
 	for _, m := range ct.Modifies {
 		if !t.staticMod(m.E, ptypes, pkg, l) {
-			l.all = true
+			t.setAll(l, 1002)
 			return
 		}
 	}
@@ -1083,6 +1094,15 @@ func (t *FnTrans) staticMod(x *Expr, ptypes map[string]types.Type, pkg *types.Pa
 			return false
 		}
 		t.wElem(l, u.Elem())
+		if t.viaCalls && t.staticArgs != nil {
+			args := map[string]ssa.Value{}
+			for k, v := range t.staticArgs {
+				args[k] = v
+			}
+			c := "E." + mangle(t.sortOf(u.Elem()))
+			l.viaExpr[c] = append(l.viaExpr[c], viaExpr{e: x.Args[0], args: args, ptypes: ptypes, pkg: pkg, kind: "elems"})
+			t.viaNoted[c] = true
+		}
 		return true
 	case x.Op == "call" && x.Name == "monitor":
 		T := t.staticType(x.Args[0], ptypes)
@@ -1148,6 +1168,56 @@ func (t *FnTrans) staticMod(x *Expr, ptypes map[string]types.Type, pkg *types.Pa
 				t.viaNoted[c] = true
 			}
 		}
+		return true
+	case x.Op == "call" && x.Name == "atomic":
+		// the value cell of a sync/atomic object: by pointer (cell heap) or embedded by value (field component)
+		T := t.staticType(x.Args[0], ptypes)
+		if T == nil {
+			return false
+		}
+		T = t.resolve(T)
+		byPtr := false
+		if p, ok := T.Underlying().(*types.Pointer); ok {
+			T = t.resolve(p.Elem())
+			byPtr = true
+		}
+		n, ok := T.(*types.Named)
+		if !ok || n.Obj().Pkg() == nil || n.Obj().Pkg().Path() != "sync/atomic" {
+			return false
+		}
+		vs := "Int"
+		if n.Obj().Name() == "Bool" {
+			vs = "Bool"
+		}
+		if byPtr {
+			t.w(l, "C.$atomic."+n.Obj().Name(), "(Array Int "+vs+")")
+			return true
+		}
+		// embedded by value: x.f with x a pointer to a struct
+		a := x.Args[0]
+		if a.Op != "sel" {
+			return false
+		}
+		ST := t.staticType(a.Args[0], ptypes)
+		if ST == nil {
+			return false
+		}
+		ST = t.resolve(ST)
+		if p, ok := ST.Underlying().(*types.Pointer); ok {
+			ST = t.resolve(p.Elem())
+		} else {
+			return false
+		}
+		st, ok := ST.Underlying().(*types.Struct)
+		if !ok {
+			return false
+		}
+		path, _ := findField(st, a.Name)
+		if len(path) != 1 {
+			return false
+		}
+		c, _ := t.fieldComp(ST, "", path[0])
+		t.w(l, c+".$a", "(Array Int "+vs+")")
 		return true
 	case x.Op == "call" && x.Name == "ghost":
 		name := x.Args[0].Name
@@ -1234,6 +1304,18 @@ func (t *FnTrans) staticMod(x *Expr, ptypes map[string]types.Type, pkg *types.Pa
 				cur = t.resolve(ft)
 			}
 			t.wFieldComp(l, c, ft)
+			isTypeName := x.Args[0].Op == "id" && ptypes[x.Args[0].Name] == nil
+			if t.viaCalls && t.staticArgs != nil && len(path) == 1 && !isTypeName {
+				// a scalar field of the object the path denotes: written only there
+				if _, isS := t.resolve(ft).Underlying().(*types.Struct); !isS {
+					args := map[string]ssa.Value{}
+					for k, v := range t.staticArgs {
+						args[k] = v
+					}
+					l.viaExpr[c] = append(l.viaExpr[c], viaExpr{e: x.Args[0], args: args, ptypes: ptypes, pkg: pkg, kind: "field"})
+					t.viaNoted[c] = true
+				}
+			}
 			return true
 		}
 		if ts := t.eng.specs.Types[typeName(ST)]; ts != nil {
@@ -1248,3 +1330,11 @@ func (t *FnTrans) staticMod(x *Expr, ptypes map[string]types.Type, pkg *types.Pa
 }
 
 var _ = sort.Strings
+
+// setAll: the loop's write set cannot be determined statically: everything is havocked at the loop head
+func (t *FnTrans) setAll(l *loopInfo, why int) {
+	l.all = true
+	if os.Getenv("GOVC_DEBUG_LOOP") != "" {
+		fmt.Fprintf(os.Stderr, "loop-havoc-all in %s: misc.go:%d\n", t.fn.Name(), why)
+	}
+}
